@@ -9,6 +9,7 @@ import (
 	"path/filepath"
 	"regexp"
 	"runtime"
+	"sort"
 	"strconv"
 	"strings"
 	"sync"
@@ -342,7 +343,7 @@ func runChild(c Case, res *Result) {
 	for p := 1; p <= c.P; p++ {
 		masks[p] = make([]uint8, c.N+1)
 	}
-	var active, maxActive, setLog, setLogger, setErr, appendCalls atomic.Int64
+	var active, maxActive, setLog, setLogger, setErr, appendCalls, progress atomic.Int64
 	start := make(chan struct{})
 	var wg sync.WaitGroup
 	setters := 0
@@ -425,13 +426,50 @@ func runChild(c Case, res *Result) {
 				} else {
 					tgt.LogError(m.text)
 				}
+				progress.Add(1)
 			}
 			active.Add(-1)
 		}(p, role)
 	}
 	t0 := time.Now()
 	close(start)
-	wg.Wait()
+	// The producers have a finite amount of work. Should none of their calls return for a while, the goroutines are looked
+	// at: when every goroutine that is inside the logs package waits for a mutex of that package (twice, two seconds
+	// apart, the same goroutines in the same places) nobody is left who could ever release it — the producers are blocked
+	// for ever and their messages never reach the sink. Anything else (somebody is writing, sleeping, runnable) is not a
+	// witness and the wait goes on until the coordinator's watchdog (inconclusive).
+	joined := make(chan struct{})
+	go func() { wg.Wait(); close(joined) }()
+	lastProgress, stalled := int64(-1), 0
+wait:
+	for {
+		select {
+		case <-joined:
+			break wait
+		case <-time.After(2 * time.Second):
+		}
+		cur := progress.Load()
+		if cur != lastProgress {
+			lastProgress, stalled = cur, 0
+			continue
+		}
+		if stalled++; stalled < 5 {
+			continue
+		}
+		k1, n1, _ := logsWaiters()
+		time.Sleep(2 * time.Second)
+		k2, n2, dump := logsWaiters()
+		if progress.Load() == cur && n1 > 0 && n1 == n2 && k1 != "" && k1 == k2 {
+			res.Findings = append(res.Findings, Finding{Sig: sig(c, &group{kind: "all"}, "producers-blocked-for-ever-inside-the-logger", "concurrent"),
+				What: fmt.Sprintf("%s: no call of the %d producers has returned for %d s and all %d goroutines inside the logs package wait for one of its mutexes (same places 2 s apart): deadlock, %d of %d messages accepted",
+					c.Ctor, c.P, 2*stalled+2, n2, cur, c.P*c.N),
+				Witness: map[string]any{"case": c, "calls_returned": cur, "goroutines": dump}})
+			res.Produced = cur
+			writeResult(c, res)
+			os.Exit(0)
+		}
+		stalled = 0
+	}
 	res.WorkloadMS = time.Since(t0).Milliseconds()
 	res.MaxActive = maxActive.Load()
 	res.SetLogSrc, res.SetLoggerSrc, res.SetErrors, res.AppendCalls = setLog.Load(), setLogger.Load(), setErr.Load(), appendCalls.Load()
@@ -514,6 +552,44 @@ func runChild(c Case, res *Result) {
 		_ = cl.Close()
 	}
 	runtime.KeepAlive(lg)
+}
+
+var reGoroutineHead = regexp.MustCompile(`^goroutine (\d+) \[([^\],]+)`)
+
+// logsWaiters looks at all goroutines: n = those with a frame of the logs package; key = their ids and wait reasons when
+// every one of them waits for a sync mutex (empty otherwise); dump = their stacks.
+func logsWaiters() (key string, n int, dump string) {
+	buf := make([]byte, 4<<20)
+	buf = buf[:runtime.Stack(buf, true)]
+	var keys, kept []string
+	all := true
+	for _, blk := range strings.Split(string(buf), "\n\n") {
+		if !strings.Contains(blk, "golang-utils/utils/logs") {
+			continue
+		}
+		n++
+		kept = append(kept, blk)
+		m := reGoroutineHead.FindStringSubmatch(blk)
+		if m == nil {
+			all = false
+			continue
+		}
+		switch st := m[2]; {
+		case strings.HasPrefix(st, "sync.RWMutex"), strings.HasPrefix(st, "sync.Mutex"), st == "semacquire":
+			keys = append(keys, m[1]+":"+st)
+		default:
+			all = false
+		}
+	}
+	dump = strings.Join(kept, "\n\n")
+	if len(dump) > 20000 {
+		dump = dump[:20000] + "\n...[truncated]"
+	}
+	if !all || n == 0 {
+		return "", n, dump
+	}
+	sort.Strings(keys)
+	return strings.Join(keys, " "), n, dump
 }
 
 func sig(c Case, g *group, effect, phase string) map[string]string {
